@@ -2,7 +2,11 @@ package main
 
 import (
 	"fmt"
+	"go/token"
 	"os"
+	"strings"
+
+	"golang.org/x/tools/go/ssa"
 )
 
 // probe prints internal extraction results (development aid; not used by any registered check).
@@ -11,6 +15,10 @@ func probe(what, repo string) {
 	if err != nil {
 		fmt.Println(err)
 		os.Exit(2)
+	}
+	if pf, ok := probes[what]; ok {
+		pf(p)
+		return
 	}
 	switch what {
 	case "raw":
@@ -22,4 +30,75 @@ func probe(what, repo string) {
 			fmt.Printf("%-50s %s\n", p.fname(f), accSet(as, nil))
 		}
 	}
+}
+
+func init() { probes["block"] = probeBlocking }
+
+var probes = map[string]func(p *P){}
+
+func probeBlocking(p *P) {
+	for _, f := range p.fnList {
+		allInstrs(f, func(in ssa.Instruction) {
+			switch x := in.(type) {
+			case *ssa.Select:
+				var chs []string
+				for _, st := range x.States {
+					d := "recv"
+					if st.Dir == 1 {
+						d = "send"
+					}
+					chs = append(chs, d+":"+chanName(p, st.Chan))
+				}
+				fmt.Printf("%-45s select blocking=%v %v  %s\n", p.fname(f), x.Blocking, chs, p.ipos(in))
+			case *ssa.Send:
+				fmt.Printf("%-45s SEND %s  %s\n", p.fname(f), chanName(p, x.Chan), p.ipos(in))
+			case *ssa.UnOp:
+				if x.Op == token.ARROW {
+					fmt.Printf("%-45s RECV %s  %s\n", p.fname(f), chanName(p, x.X), p.ipos(in))
+				}
+			case *ssa.Call:
+				n := p.calleeName(&x.Call)
+				if n == "(*sync.WaitGroup).Wait" || n == "time.Sleep" || n == "(*sync.Cond).Wait" {
+					fmt.Printf("%-45s %s  %s\n", p.fname(f), n, p.ipos(in))
+				}
+			}
+		})
+	}
+}
+
+func chanName(p *P, v ssa.Value) string {
+	if fa, ok := loadOfField(v); ok {
+		return fieldKey(fa)
+	}
+	switch x := v.(type) {
+	case *ssa.Call:
+		if x.Call.IsInvoke() {
+			return "invoke:" + x.Call.Method.Name() + "()"
+		}
+		return "call:" + p.calleeName(&x.Call)
+	case *ssa.Phi:
+		var es []string
+		for _, e := range x.Edges {
+			es = append(es, chanName(p, e))
+		}
+		return "phi(" + strings.Join(es, "|") + ")"
+	case *ssa.Const:
+		return "nil"
+	case *ssa.Parameter:
+		return "param:" + x.Name()
+	case *ssa.ChangeType:
+		return chanName(p, x.X)
+	case *ssa.MakeChan:
+		return "local chan"
+	case *ssa.UnOp:
+		if al, ok := x.X.(*ssa.Alloc); ok {
+			return "local var " + al.Comment
+		}
+		if fv, ok := x.X.(*ssa.FreeVar); ok {
+			return "captured " + fv.Name()
+		}
+	case *ssa.FreeVar:
+		return "captured " + x.Name()
+	}
+	return "?" + v.Name()
 }
